@@ -125,6 +125,24 @@ const kitchenYAML = `types:
     - name: gitems
       type:
         namedType: itemlist
+    - name: ssub
+      type:
+        namedType: sub
+        elementRelationship: separable
+    - name: sitems
+      type:
+        namedType: itemlist
+        elementRelationship: associative
+    - name: mk3
+      type:
+        list:
+          elementType:
+            namedType: mk3item
+          elementRelationship: associative
+          keys:
+          - ka
+          - kb
+          - kc
     - name: rules
       type:
         list:
@@ -240,6 +258,21 @@ const kitchenYAML = `types:
     - name: vv
       type:
         scalar: untyped
+- name: mk3item
+  map:
+    fields:
+    - name: ka
+      type:
+        scalar: string
+    - name: kb
+      type:
+        scalar: numeric
+    - name: kc
+      type:
+        scalar: string
+    - name: vv
+      type:
+        scalar: numeric
 - name: port
   map:
     fields:
